@@ -33,3 +33,20 @@ Fixpoint stream_class13 (fuel : nat) (stream : bytes) : c13class :=
       | None => UNone
       end
   end.
+
+(* every message of the stream (as the reference reader frames it) has a type known to this version *)
+Fixpoint stream_types_known (fuel : nat) (stream : bytes) : bool :=
+  match fuel with
+  | O => true
+  | S f =>
+      match spec_frame_len stream with
+      | Some n =>
+          if (n <=? len stream) && (0 <? n) then
+            match spec_parse (takeN n stream) with
+            | Some m => (1 <=? sm_type m) && (sm_type m <=? 4) && stream_types_known f (dropN n stream)
+            | None => true
+            end
+          else true
+      | None => true
+      end
+  end.
